@@ -155,7 +155,7 @@ Section Filter.
     match procstat pid with
     | None => Ok (inl AncError)
     | Some content =>
-      let got := takeN (s_st_fread_n c) content in              (* fread(st_buf, 1, ST_BUF_SIZE - 1, statf) *)
+      let got := takeS (s_st_fread_n c) content in              (* fread(st_buf, 1, ST_BUF_SIZE - 1, statf) *)
       let rc := len got in
       b1 <- wrs (fresh (s_st_buf c)) 0 got ;;
       b2 <- wr b1 rc NUL ;;
@@ -167,7 +167,7 @@ Section Filter.
         let ln := sub64 (sub64 r l) 1 in                        (* size_t len = right - left - 1 *)
         if (ln =? 0) || (s_st_comm_limit c <=? ln) then Ok (inl AncError) else
         (* memcpy(st_comm_buf, left + 1, len); st_comm_buf[len] = '\0' *)
-        let comm_src := takeN ln (dropN (l + 1) s) in
+        let comm_src := takeS ln (dropN (l + 1) s) in
         _ <- (if l + 1 + ln <=? len s + 1 then Ok tt else Fault OOB_read) ;;
         cb1 <- wrs (fresh (s_st_comm c)) 0 comm_src ;;
         cb2 <- wr cb1 ln NUL ;;
